@@ -13,7 +13,8 @@ pub const RULE: &str = "exhaustive: all 7 x 256 weekday/u8 combinations for + - 
 pub const ASSUMPTIONS: &[&str] = &[
     "weekday() is compared with the civil weekday of the model's TAI date of the instant, weekday_utc() with that of the model's UTC date; ET/TDB epochs are skipped within 1 us of a TAI/UTC midnight (their conversion is exact only to nanoseconds)",
     "next(w)/previous(w): exactly k whole days in the epoch's own scale with k = ((w - weekday(e)) mod 7) or 7; the result's weekday() is w except within 11 s of a TAI midnight, where the offset change at a leap entry inside the interval (10 s on 1972-01-01, 1 s afterwards) can move the TAI date",
-    "not asserted: next/previous_weekday_at_midnight/_at_noon (anchored but not defined by the statement)",
+    "next/previous_weekday_at_midnight/_at_noon are anchored but not defined by the statement; asserted is only their documented construction (next/previous, then the time of day replaced by 00:00:00 / 12:00:00 counted from the scale's reference epoch) and only for results on or after that reference epoch, where 'time of day' of a count is unambiguous",
+    "weekday_in_time_scale is asserted for TAI, UTC and TT only (its documentation: correct only if the scale's reference epoch is a Monday)",
 ];
 
 const WD: [Weekday; 7] = [Weekday::Monday, Weekday::Tuesday, Weekday::Wednesday, Weekday::Thursday, Weekday::Friday, Weekday::Saturday, Weekday::Sunday];
@@ -135,6 +136,16 @@ fn wd_oracle(c: &Wd) -> Verdict {
         }
         None => {}
     }
+    // weekday_in_time_scale for the three scales whose reference epoch is 1900-01-01 (a Monday): TAI, UTC, TT
+    ensure!(lib!(e.weekday_in_time_scale(SCALES[S_TAI])) == got, "weekday_in_time_scale(TAI) differs from weekday()");
+    {
+        let tt = tai + zero_tai_ns(S_TAI) - zero_tai_ns(S_TT);
+        if !(is_dyn(c.s) && near_mid(tt, 1000)) {
+            let tw = weekday_of_day1900(tt.div_euclid(NS_D) as i64) as i64;
+            let gott = lib!(e.weekday_in_time_scale(SCALES[S_TT]));
+            ensure!(idx(gott) == tw, "weekday_in_time_scale(TT) of {} count {} = {:?}, want {}", SCALE_NAMES[c.s], cnt, gott, WEEKDAY_LONG[tw as usize]);
+        }
+    }
     // next / previous
     let w = WD[c.target as usize];
     let k_next = { let k = (c.target as i64 - wd).rem_euclid(7); if k == 0 { 7 } else { k } };
@@ -146,6 +157,23 @@ fn wd_oracle(c: &Wd) -> Verdict {
     if !near_mid(tai, 11 * NS_S + 1000) {
         ensure!(lib!(n.weekday()) == w, "next({:?}) falls on {:?}", w, n.weekday());
         ensure!(lib!(p.weekday()) == w, "previous({:?}) falls on {:?}", w, p.weekday());
+    }
+    // the _at_midnight / _at_noon variants are next / previous with the time of day replaced (with_hms_strict):
+    // for results on or after the scale's reference epoch that is the start of the day of the count, plus 0 or 12 h
+    let day_start = |x: i128| x.div_euclid(NS_D) * NS_D;
+    let nc = cnt + k_next as i128 * NS_D;
+    if nc >= 0 {
+        let a = lib!(e.next_weekday_at_midnight(w));
+        ensure!(a.time_scale == SCALES[c.s] && count(a.duration) == day_start(nc), "next_weekday_at_midnight({:?}) of {} count {} = {}, want {}", w, SCALE_NAMES[c.s], cnt, count(a.duration), day_start(nc));
+        let b = lib!(e.next_weekday_at_noon(w));
+        ensure!(b.time_scale == SCALES[c.s] && count(b.duration) == day_start(nc) + NS_D / 2, "next_weekday_at_noon({:?}) of {} count {} = {}, want {}", w, SCALE_NAMES[c.s], cnt, count(b.duration), day_start(nc) + NS_D / 2);
+    }
+    let pc = cnt - k_prev as i128 * NS_D;
+    if pc >= 0 {
+        let a = lib!(e.previous_weekday_at_midnight(w));
+        ensure!(a.time_scale == SCALES[c.s] && count(a.duration) == day_start(pc), "previous_weekday_at_midnight({:?}) of {} count {} = {}, want {}", w, SCALE_NAMES[c.s], cnt, count(a.duration), day_start(pc));
+        let b = lib!(e.previous_weekday_at_noon(w));
+        ensure!(b.time_scale == SCALES[c.s] && count(b.duration) == day_start(pc) + NS_D / 2, "previous_weekday_at_noon({:?}) of {} count {} = {}, want {}", w, SCALE_NAMES[c.s], cnt, count(b.duration), day_start(pc) + NS_D / 2);
     }
     let g = greg_of_ns1900(c.g);
     let class = if near_mid(c.g, 1000) {
